@@ -11,7 +11,10 @@ import (
 
 // C18: random scalars are non-zero, canonical and correct for every entropy stream.
 func C18(p *load.Prog, r *report.Report) {
-	const unroll = 3
+	unroll := 3
+	if r.Tier == "thorough" {
+		unroll = 6
+	}
 	r.Explanation = fmt.Sprintf("E1 on Scalar.Random with the entropy reads modelled as fresh symbolic 32-byte blocks B1, B2, … and symbolic read errors. The data-dependent retry loop is unrolled %d times by path enumeration; the rest is induction on the iteration count, justified by what the enumerated paths show: the value stored on an exit in iteration k mentions only block Bk (no state is carried into the next iteration besides the tested value, which is zero on the retry edge). Obligations on every path: an exit in iteration k assumes [Bj mod n = 0] for all j<k and [Bk mod n != 0], and stores exactly Montgomery(Bk mod n) into the receiver (the single conditional subtraction is justified by the interval 2^256 < 2n; Fiat's < n precondition is proven by the guard-refined interval); a failed read panics before anything is stored; every read takes 32 bytes from crypto/rand.Reader.", unroll)
 	r.Trusted = []string{"io.ReadFull contract (fills the buffer or returns an error)", "crypto/rand.Reader is the system randomness source", "Fiat ToMontgomery leaf specification", "induction over loop iterations given state independence shown on the enumerated paths"}
 	m, err := discoverModel(p)
